@@ -626,6 +626,8 @@ func propC13(c *Ctx) {
 	ruleResetAlways(c, rra, roles)
 	rsm := c.Rule("set-monotone", "the disabled set of an existing symbol table only grows: the whole set is assigned only while it is still nil or on a brand-new table", 2)
 	ruleSetMonotone(c, rsm, roles)
+	rso := c.Rule("set-owned", "every symbol table owns its set of disabled builtins: the field is assigned a map made on the spot, never another table's set", 2)
+	ruleSetOwned(c, rso, roles)
 }
 
 // ruleEvalInherit (shared by C13 and C01): after the evaluator's table is reset
